@@ -148,7 +148,11 @@ async def read_response(link, deadline_s):
         k, _, v = l.partition(":")
         headers[k.strip().lower()] = v.strip()
     rest_from = i + 4
-    if status in (204, 304) or 100 <= status < 200:
+    if 100 <= status < 200:
+        # interim response (100 Continue): drop it and parse the final response that follows
+        del link.s2c[:rest_from]
+        return await read_response(link, max(0.0, end - loop.time()))
+    if status in (204, 304):
         del link.s2c[:rest_from]
         return HTTPResponse(status, headers, b"")
     if "content-length" in headers:
